@@ -21,6 +21,18 @@ TEXTS = ["", "a", "ab", "a'b", 'a"b', "a\\b", "a\nb", "一", " ", "b", "'", "\\n
 FMTS = [{}, {"fg": 31}, {"fg": 32}, {"bg": 41}, {"bold": True}, {"bold": False},
         {"fg": 31, "bold": True}, {"underline": True, "bg": 44, "fg": 37},
         {"invert": True, "dark": True, "italic": True, "blink": True}, {"fg": 31, "italic": False}]
+# a style switched on with a truthy value other than True (accepted as on, or refused with
+# ValueError: then the value is left out of the pool)
+FMTS_TRUTHY = [{"bold": 1}, {"underline": 2, "fg": 31}]
+
+
+def build(spec):
+    try:
+        return obs.build(spec)
+    except ValueError:
+        if any(v is not True and v is not False and k in obs.STYLES for _, a in spec for k, v in a.items()):
+            return None
+        raise
 
 
 def pool_specs(rng, size):
@@ -28,6 +40,9 @@ def pool_specs(rng, size):
     for t in TEXTS:
         for a in FMTS:
             specs.append([[t, dict(a)]])
+    for a in FMTS_TRUTHY:
+        specs.append([["ab", dict(a)]])
+        specs.append([["a", dict(a)], ["b", {"fg": 32}]])
     # same display, different run boundaries / empty runs
     for a in FMTS[:6]:
         specs.append([["a", dict(a)], ["b", dict(a)]])
@@ -43,12 +58,22 @@ def pool_specs(rng, size):
 def run_case(ctx, case):
     kind = case["kind"]
     if kind == "pair":
-        a, b = obs.build(case["a"]), obs.build(case["b"])
-        judge_pair(ctx, case, a, b)
+        a, b = build(case["a"]), build(case["b"])
+        if a is not None and b is not None:
+            judge_pair(ctx, case, a, b)
     elif kind == "str":
-        judge_str(ctx, case, obs.build(case["a"]), case["s"])
+        a = build(case["a"])
+        if a is not None:
+            judge_str(ctx, case, a, case["s"])
+    elif kind == "first-use-interrupted":
+        a = obs.build(case["a"], warm=False)
+        obs.touch_interrupted(a, case["k"])
+        judge_pair(ctx, case, a, obs.build(case["a"], warm=False))
+        judge_repr(ctx, case, a, obs.spec_cells(case["a"]))
     elif kind == "repr":
-        judge_repr(ctx, case, obs.build(case["a"]), obs.spec_cells(case["a"]))
+        a = build(case["a"])
+        if a is not None:
+            judge_repr(ctx, case, a, obs.spec_cells(case["a"]))
 
 
 def judge_pair(ctx, case, a, b):
@@ -113,6 +138,12 @@ def judge_repr(ctx, case, a, A):
             got = obs.cells(v)
         ok = got == A
         ctx.judge(ok, case, ("C19", "repr", r), "C19:repr", obs.show(A), [r, obs.show(got)])
+        if ok:
+            # ... and it displays as f displays
+            shown_f, shown_v = obs.observe(str(a)), obs.observe(str(v))
+            if shown_f != shown_v:
+                ctx.judge(False, case, ("C19", "repr-display", r), "C19:repr-displays-differently",
+                          obs.show(shown_f), [r, obs.show(shown_v)])
     except Exception as ex:  # noqa
         ctx.judge(False, case, mech="C19:repr", expected=obs.show(A), got=repr(ex))
 
@@ -120,7 +151,9 @@ def judge_repr(ctx, case, a, A):
 def run(ctx):
     size = 400 if ctx.quick else 3000
     specs = pool_specs(ctx.rng.__class__(ctx.seed), size)
-    values = [obs.build(s) for s in specs]
+    values = [build(s) for s in specs]
+    specs = [s for s, v in zip(specs, values) if v is not None]
+    values = [v for v in values if v is not None]
     ctx.notes["pool_size"] = len(values)
     n = 0
     for i, a in enumerate(values):
@@ -159,6 +192,18 @@ def run(ctx):
         if specs[i]:
             judge_repr(ctx, {"kind": "repr", "a": specs[i]}, a, obs.spec_cells(specs[i]))
             ctx.count("reprs")
+    # values whose first use was cut short - by a Ctrl-C or by a failed allocation - at the k-th
+    # statement, for every k: they compare, hash and repr like a twin that was never disturbed
+    for i, spec in enumerate(specs[:40 if ctx.quick else 400]):
+        if not spec or not ctx.mine(i):
+            continue
+        for k in range(1, 31):
+            a = obs.build(spec, warm=False)
+            obs.touch_interrupted(a, k)
+            case = {"kind": "first-use-interrupted", "a": spec, "k": k}
+            judge_pair(ctx, case, a, obs.build(spec, warm=False))
+            judge_repr(ctx, case, a, obs.spec_cells(spec))
+            ctx.count("values_with_interrupted_first_use")
     rng = ctx.rng
     for _ in range(ctx.share(2000 if ctx.quick else 500000)):
         spec = obs.rand_spec(rng, 4, 3, ["a", "b", "'", '"', "\\", "\n", "一", " ", "\t"])
